@@ -2305,7 +2305,8 @@ class WBEMConnection:  # pylint: disable=too-many-instance-attributes
 
         if tup_tree and tup_tree[0][0] == 'RETURNVALUE':
 
-            returnvalue = cimvalue(tup_tree[0][2], tup_tree[0][1]['PARAMTYPE'])
+            returnvalue = self._wire_value(
+                tup_tree[0][2], tup_tree[0][1]['PARAMTYPE'])
             tup_tree = tup_tree[1:]
 
         # Convert zero or more PARAMVALUE elements into dictionary
@@ -2316,9 +2317,30 @@ class WBEMConnection:  # pylint: disable=too-many-instance-attributes
             if p[1] == 'reference':
                 output_params[p[0]] = p[2]
             else:
-                output_params[p[0]] = cimvalue(p[2], p[1])
+                output_params[p[0]] = self._wire_value(p[2], p[1])
 
         return (returnvalue, output_params)
+
+    def _wire_value(self, value, cimtype):
+        """
+        Convert the value of a RETURNVALUE or PARAMVALUE element (CIM-XML
+        strings, or a list of them) into a CIM data type object.
+
+        Boolean values arrive as the strings 'TRUE' / 'FALSE'; cimvalue()
+        would apply Python truth testing to them ('FALSE' -> True).
+        """
+        if cimtype == 'boolean':
+            parser = TupleParser(self.conn_id)
+
+            def _conv(val):
+                if isinstance(val, str):
+                    return parser.unpack_boolean(val)
+                return val
+
+            if isinstance(value, list):
+                return [_conv(v) for v in value]
+            return _conv(value)
+        return cimvalue(value, cimtype)
 
     def _iexportcall(self, methodname, **params):
         """
